@@ -91,6 +91,7 @@ SPEC_NAMES = {
     "clock",
     "call_time",
     "is_method_of",
+    "watches",
     "group_has",
     "count_calls",
     "wsgi_body",
@@ -468,6 +469,11 @@ class SpecMixin:
         var = e.args[1].value
         out = []
         entries = self.traces.get(name, [])
+        if name.endswith("_ever"):
+            # "did it ever happen in this call": what was recorded before a loop still happened
+            if not is_any:
+                raise ContractError("trace_all over an '_ever' trace (unknown stretches may hold anything)")
+            entries = [x for x in entries if not isinstance(x, TraceGap)]
         # entries before a loop gap belong to earlier iterations: only what follows it is known
         for k in range(len(entries) - 1, -1, -1):
             if isinstance(entries[k], TraceGap):
@@ -928,6 +934,30 @@ class SpecMixin:
             return False
         same = x.obj is obj or (isinstance(x.obj, SObj) and isinstance(obj, SObj) and x.obj.oid == obj.oid)
         return bool(same and x.name == name)
+
+    def sp_watches(self, e, fr):
+        """watches(entry, obj, 'name'): the spawned entry -- the coroutine raise_shutdown(obj.name)
+        given to a task group, or the tuple (raise_shutdown, obj.name) given to a nursery -- is
+        hypercorn.utils.raise_shutdown applied to the bound method obj.name"""
+        from .calls import Coro
+        from .sym import BoundMethod
+
+        entry = self.ev(e.args[0], fr)
+        obj = self.ev(e.args[1], fr)
+        name = self.ev(e.args[2], fr)
+        if isinstance(entry, Coro):
+            fn_ok = entry.label.endswith(":raise_shutdown")
+            arg = entry.args[0] if entry.args else None
+        elif isinstance(entry, tuple) and entry:
+            fn = entry[0]
+            fn_ok = getattr(fn, "__name__", "") == "raise_shutdown" and getattr(fn, "__module__", "") == "hypercorn.utils"
+            arg = entry[1] if len(entry) > 1 else None
+        else:
+            return False
+        if not fn_ok or not isinstance(arg, BoundMethod):
+            return False
+        same = arg.obj is obj or (isinstance(arg.obj, SObj) and isinstance(obj, SObj) and arg.obj.oid == obj.oid)
+        return bool(same and arg.name == name)
 
     def sp_group_has(self, e, fr):
         """group_has(exc, (T1, T2)): the exception group contains an exception of one of the
